@@ -26,8 +26,21 @@ type Service struct {
 func (s *Server) GetServiceProvider(_ *http.Request, serviceProviderID string) (*saml.EntityDescriptor, error) {
 	s.idpConfigMu.RLock()
 	defer s.idpConfigMu.RUnlock()
-	rv, ok := s.serviceProviders[serviceProviderID]
-	if !ok {
+
+	// The registry is keyed by service name, exactly like the store, so that it
+	// always mirrors the stored services. If several services share an entity ID
+	// the one with the smallest name is used, independent of insertion order.
+	var rv *saml.EntityDescriptor
+	var rvName string
+	for name, metadata := range s.serviceProviders {
+		if metadata.EntityID != serviceProviderID {
+			continue
+		}
+		if rv == nil || name < rvName {
+			rv, rvName = metadata, name
+		}
+	}
+	if rv == nil {
 		return nil, os.ErrNotExist
 	}
 	return rv, nil
@@ -91,7 +104,7 @@ func (s *Server) HandlePutService(w http.ResponseWriter, r *http.Request) {
 	}
 
 	s.idpConfigMu.Lock()
-	s.serviceProviders[service.Metadata.EntityID] = &service.Metadata
+	s.serviceProviders[r.PathValue("id")] = &service.Metadata
 	s.idpConfigMu.Unlock()
 
 	w.WriteHeader(http.StatusNoContent)
@@ -114,7 +127,7 @@ func (s *Server) HandleDeleteService(w http.ResponseWriter, r *http.Request) {
 	}
 
 	s.idpConfigMu.Lock()
-	delete(s.serviceProviders, service.Metadata.EntityID)
+	delete(s.serviceProviders, r.PathValue("id"))
 	s.idpConfigMu.Unlock()
 
 	w.WriteHeader(http.StatusNoContent)
@@ -134,7 +147,7 @@ func (s *Server) initializeServices() error {
 		}
 
 		s.idpConfigMu.Lock()
-		s.serviceProviders[service.Metadata.EntityID] = &service.Metadata
+		s.serviceProviders[serviceName] = &service.Metadata
 		s.idpConfigMu.Unlock()
 	}
 	return nil
